@@ -528,3 +528,61 @@ func boolEdgeFilter(e ssa.Value, want bool) func(*ssa.BasicBlock, int) bool {
 		return true
 	}
 }
+
+// minAcceptedLen: the smallest length n (0..256) of fn's byte-slice parameter with which fn can return a nil error,
+// following only the branches that len(param) == n allows; -1 when there is none or fn has no such parameter. The form
+// of the guard (`len(b) < 5`, `len(b) <= 4`, `!(len(b) >= 5)`, a switch) does not matter.
+func minAcceptedLen(fn *ssa.Function) int64 {
+	var p *ssa.Parameter
+	for _, q := range fn.Params {
+		if isByteSlice(q.Type()) {
+			p = q
+			break
+		}
+	}
+	if p == nil || len(fn.Blocks) == 0 {
+		return -1
+	}
+	for n := int64(0); n <= 256; n++ {
+		valOf := func(v ssa.Value) (int64, bool) {
+			if c, ok := v.(*ssa.Call); ok {
+				if bi, ok := c.Common().Value.(*ssa.Builtin); ok && bi.Name() == "len" && len(c.Common().Args) == 1 && c.Common().Args[0] == ssa.Value(p) {
+					return n, true
+				}
+			}
+			return 0, false
+		}
+		edgeOK := foldedEdgesV(valOf)
+		seen := map[*ssa.BasicBlock]bool{}
+		work := []*ssa.BasicBlock{fn.Blocks[0]}
+		accepted := false
+		for len(work) > 0 && !accepted {
+			b := work[len(work)-1]
+			work = work[:len(work)-1]
+			if seen[b] {
+				continue
+			}
+			seen[b] = true
+			if len(b.Instrs) > 0 {
+				if r, ok := b.Instrs[len(b.Instrs)-1].(*ssa.Return); ok {
+					if len(r.Results) == 0 {
+						accepted = true
+					} else if c, ok := r.Results[len(r.Results)-1].(*ssa.Const); ok && c.Value == nil {
+						accepted = true
+					} else if !isErrorType(r.Results[len(r.Results)-1].Type()) {
+						accepted = true
+					}
+				}
+			}
+			for si, sb := range b.Succs {
+				if edgeOK(b, si) {
+					work = append(work, sb)
+				}
+			}
+		}
+		if accepted {
+			return n
+		}
+	}
+	return -1
+}
